@@ -4403,6 +4403,8 @@ def _match__inside_list_quantifier(
         Adding to matches means either adding the successful match dictionary to `tagss` or creating an `FSTMatch`
         object and adding it to a dedicated match list which is in `tagss` as its own dictionary with key `pat_tag`."""
 
+        tgt_idx_start = tgt_iter.idx
+
         if is_qpat_list:
             qpat_iter.idx = 0  # reset quantifier list pattern to start since _match__inside_list() doesn't reset it on success
             tgt_idx = tgt_iter.idx
@@ -4438,6 +4440,7 @@ def _match__inside_list_quantifier(
                 m = FSTMatch(q_pat, t, m)
 
         matches.insert(matches_ins_idx, m)
+        tgt_idxs.append(tgt_idx_start)
 
         return True
 
@@ -4453,6 +4456,7 @@ def _match__inside_list_quantifier(
     q_max = pat.max
     matches_ins_idx = 0x7fffffffffffffff
     count = 0
+    tgt_idxs = []  # target index at the start of each successful quantifier pattern match, a sublist pattern can consume any number of elements so greedy backtracking has to step back one whole match and not one element
 
     if q_max is None:
         q_max = 0x7fffffffffffffff
@@ -4519,7 +4523,7 @@ def _match__inside_list_quantifier(
         if greedy:  # if greedy then we are removing previous matches to try again one position to the left
             del matches[matches_del_idx]  # if there are static_tags then we are deleting the dictionary before those
 
-            tgt_iter.idx -= 1  # step back 1
+            tgt_iter.idx = tgt_idxs.pop()  # step back 1 match
             count -= 1
 
         else:  # if non-greedy then we are attempting to match our pattern one position to the right and if successful then try match shorter list
